@@ -326,11 +326,8 @@ Definition st_of_w4 (t : w4) : state :=
 Lemma wcol_of_word w : wcol w (col_of_word w).
 Proof.
   unfold col_of_word. cbn [wcol].
-  rewrite (b2n_n2b_small (byte3 w)) by apply byte3_lt.
-  rewrite (b2n_n2b_small (byte2 w)) by apply byte2_lt.
-  rewrite (b2n_n2b_small (byte1 w)) by apply byte1_lt.
-  rewrite (b2n_n2b_small (byte0 w)) by apply byte0_lt.
-  repeat split.
+  repeat split; symmetry; apply b2n_n2b_small;
+    first [apply byte3_lt | apply byte2_lt | apply byte1_lt | apply byte0_lt].
 Qed.
 Lemma wst_of_w4 t : wst t (st_of_w4 t).
 Proof. destruct t. cbn [wst st_of_w4]. repeat split; apply wcol_of_word. Qed.
